@@ -36,3 +36,20 @@ macro_rules
     `(tactic| (repeat' (first | exact trivial | constructor)) <;> (first | exact trivial | ($t)))
 
 end NdeVerif
+
+namespace NdeVerif
+
+theorem one_sub_exp_ne_zero {a : ℝ} (ha : a ≠ 0) : 1 - Real.exp a ≠ 0 := by
+  intro h
+  have : Real.exp a = 1 := by linarith
+  exact ha (Real.exp_eq_one_iff a |>.mp this)
+
+theorem exp_sub_one_ne_zero {a : ℝ} (ha : a ≠ 0) : Real.exp a - 1 ≠ 0 := by
+  intro h
+  have : Real.exp a = 1 := by linarith
+  exact ha (Real.exp_eq_one_iff a |>.mp this)
+
+theorem ne_zero_of_mul_eq {p d q : ℝ} (h : p * d = q) (hq : q ≠ 0) : p ≠ 0 := by
+  intro hp; apply hq; rw [← h, hp, zero_mul]
+
+end NdeVerif
